@@ -395,7 +395,15 @@ fn read_all_sync<R: Read>(r: &mut R, bufs: &[usize]) -> std::io::Result<Vec<u8>>
     let mut out = Vec::new();
     let mut i = 0;
     loop {
-        let sz = if bufs.is_empty() { 8192 } else { bufs[i % bufs.len()].max(1) };
+        // generated (possibly tiny) buffer sizes for the first reads, then large ones so that
+        // MiB-sized entries do not take a million calls
+        let sz = if bufs.is_empty() {
+            8192
+        } else if i < 48 {
+            bufs[i % bufs.len()].max(1)
+        } else {
+            bufs[i % bufs.len()].max(1 << 16)
+        };
         i += 1;
         let mut buf = vec![0u8; sz];
         let n = r.read(&mut buf)?;
@@ -410,7 +418,15 @@ async fn read_all_async<R: AsyncReadExt + Unpin>(r: &mut R, bufs: &[usize]) -> s
     let mut out = Vec::new();
     let mut i = 0;
     loop {
-        let sz = if bufs.is_empty() { 8192 } else { bufs[i % bufs.len()].max(1) };
+        // generated (possibly tiny) buffer sizes for the first reads, then large ones so that
+        // MiB-sized entries do not take a million calls
+        let sz = if bufs.is_empty() {
+            8192
+        } else if i < 48 {
+            bufs[i % bufs.len()].max(1)
+        } else {
+            bufs[i % bufs.len()].max(1 << 16)
+        };
         i += 1;
         let mut buf = vec![0u8; sz];
         let n = r.read(&mut buf).await?;
